@@ -24,6 +24,7 @@ import (
 	"crypto/sha256"
 	"encoding/binary"
 	"encoding/hex"
+	"errors"
 	"fmt"
 	"math/rand"
 	"net"
@@ -534,6 +535,42 @@ func vfC20STUN(r *rand.Rand, seq int, kind string) (data []byte, mapped netip.Ad
 		return b[:8+r.Intn(12)], netip.AddrPort{}, tx
 	}
 	panic("vfC20STUN: unknown kind " + kind)
+}
+
+// ----------------------------------------------------------------------------- shared small things
+
+var vfC20ErrDrained = errors.New("vfC20: script drained")
+
+func vfC20min(a, b int) int {
+	if a < b {
+		return a
+	}
+	return b
+}
+
+func vfC20max(a, b int) int {
+	if a > b {
+		return a
+	}
+	return b
+}
+
+// vfC20UDPAddr is the *net.UDPAddr form of an AddrPort (own helper: the API-only harness
+// files do not use unexported functions of the package).
+func vfC20UDPAddr(ap netip.AddrPort) *net.UDPAddr {
+	return &net.UDPAddr{IP: net.IP(ap.Addr().AsSlice()), Port: int(ap.Port())}
+}
+
+// vfC20Census is the optional WHITE-BOX registry probe. It is nil in every job except
+// "census": only c20_whitebox_test.go (listed in that job alone) touches unexported state
+// of PunchPacketConn / ServerPuncher and installs it. All other C20 harness files use the
+// exported API only, so a change of the registry's representation cannot take the
+// behavioural oracles down with it.
+var vfC20Census *vfC20CensusFuncs
+
+type vfC20CensusFuncs struct {
+	Conn   func(w *PunchPacketConn, id string) (PunchMetadata, bool) // registry entry of id, read under the conn's own lock
+	Server func(sp *ServerPuncher, id string) bool                   // ServerPuncher's attempt table has id
 }
 
 // ----------------------------------------------------------------------------- violation throttle
